@@ -11,27 +11,14 @@ from harness import common as C
 from harness.props import C07_util as U
 
 PID = "C07"
-K_HOOK = "hook-exception-request-unanswered"
-K_WRITTEN = "written-hook-second-pdu"
-K_UNKNOWN = "unknown-opcode-unanswered"
-K_NOTIF = "notification-hook-exception-then-hook-update-wedges"
-
-
-def quiet(o):
-    return o is None or o[0] in ("ret", "val")
-
 
 def oracle_case(spec, evs, res):
     """The property on the implementation's outputs.
     Returns list of (step index, what, key, expected, observed); stops at the first wedge."""
     bad = []
     mtu, connected = 23, True
-    notif_raised = False      # a notification / indication hook raised earlier: the procedure lock is stuck
     for k, (ev, st) in enumerate(zip(evs, res["steps"])):
         out = [bytes.fromhex(x) for x in st["out"]]
-        hk0 = ev.get("hooks") or {}
-        if not (quiet(hk0.get("notif")) and quiet(hk0.get("indic"))):
-            notif_raised = True
         if ev["op"] == "conn":
             if not connected:
                 connected, mtu = True, 23
@@ -50,20 +37,14 @@ def oracle_case(spec, evs, res):
         # responses = everything but the notifications / indications a hook's update may send meanwhile
         rsp = [p for p in out if p[:1] not in (b"\x1b", b"\x1d")]
         kind, n, hooks = r[0], len(rsp), ev.get("hooks") or {}
-        if kind in U.REQUEST_KINDS and not (kind == "ReadMultiple" and not r[1]):
+        if kind in U.REQUEST_KINDS or (kind == "UnknownOp" and U.req_opcode(r[1])):
             if n != 1:
-                key = None
-                if n == 0 and st["exc"] == "HookBoom":
-                    key = K_HOOK
-                elif n == 0 and st["exc"] == "WouldDeadlock" and notif_raised and ev.get("acts"):
-                    key = K_NOTIF
-                elif n == 2 and rsp[0] == b"\x13" and hooks.get("write", ["ret"])[0] == "ret" and \
-                        (hooks.get("written", ["ret"])[0] != "ret" or (notif_raised and (ev.get("acts") or {}).get("written"))):
-                    key = K_WRITTEN
-                bad.append((k, "%d PDUs answer a %s request (exception: %s)" % (n, kind, st["exc"]), key, "exactly 1", st["out"]))
+                what = ("%d PDUs answer a %s request (exception: %s)" % (n, kind, st["exc"]) if kind != "UnknownOp" else
+                        "%d PDUs answer the request with opcode 0x%02x (%d parameter bytes)" % (n, r[1], len(r[2])))
+                bad.append((k, what, None, "exactly 1", st["out"]))
         elif kind == "UnknownOp":
-            if not (r[1] & 0x40) and n != 1:
-                bad.append((k, "request with opcode 0x%02x gets no answer" % r[1], K_UNKNOWN, "exactly 1", st["out"]))
+            if n != 0:
+                bad.append((k, "PDU with opcode 0x%02x (not a request) answered" % r[1], None, "nothing", st["out"]))
         elif kind in U.COMMAND_KINDS:
             if n > 1:
                 bad.append((k, "%d PDUs sent for a %s command" % (n, kind), None, "<= 1", st["out"]))
@@ -86,8 +67,7 @@ def oracle_case(spec, evs, res):
                 if any(h < s or h > e for h in hs) or any(a >= b for a, b in zip(hs, hs[1:])):
                     bad.append((k, "list response handles outside the range or not increasing", None, [s, e], hs))
         if not st["probe"]:
-            key = K_NOTIF if (st["exc"] == "WouldDeadlock" and notif_raised and ev.get("acts")) else None
-            bad.append((k, "server does not answer the next request after %s (exception: %s)" % (kind, st["exc"]), key, "probe answered", "no answer"))
+            bad.append((k, "server does not answer the next request after %s (exception: %s)" % (kind, st["exc"]), None, "probe answered", "no answer"))
             break
         if kind == "ExchangeMtu" and r[1] >= 23 and out and out[0][0] == 3:
             mtu = max(23, min(r[1], struct.unpack("<H", out[0][1:3])[0]))
